@@ -167,6 +167,10 @@ static void *client_main(void *arg)
       h.ai_family = AF_INET;
       h.ai_flags  = ARES_AI_NOSORT;
       if ((rq = new_req()) != NULL) ares_getaddrinfo(g_channel, name, NULL, &h, cb_ai, rq);
+    } else if (r < 60) {
+      /* a request whose construction fails (RFC 7686: .onion names are refused): the error
+       * path must leave the channel usable for the other threads */
+      if ((rq = new_req()) != NULL) ares_search(g_channel, "hidden-service.onion", ARES_CLASS_IN, ARES_REC_TYPE_A, cb_legacy, rq);
     } else if (r < 64) {
       ares_cancel(g_channel);
     } else if (r < 70) {
@@ -193,6 +197,17 @@ static void *client_main(void *arg)
   return NULL;
 }
 
+#include <signal.h>
+static long wd_case;
+static void watchdog(int sig)
+{
+  char   b[96];
+  int    n = snprintf(b, sizeof(b), "%ld R DEADLOCK\nEND %ld\nDONE\n", wd_case, wd_case);
+  (void)sig;
+  if (n > 0) (void)!write(1, b, (size_t)n);
+  _exit(0);
+}
+
 static void run_case(long k, char *line)
 {
   char               *save = NULL, *tokp;
@@ -205,6 +220,11 @@ static void run_case(long k, char *line)
   int                 out_after, late = 0, lostwake = 0;
   char               *bar = strchr(line, '|');
   if (bar) *bar = 0;
+  /* no thread may block forever: 2 tries of 250 ms, waits of 5 s; a case that is still running
+   * after 45 s has deadlocked (a normal case takes about a second, a thorough one a few) */
+  wd_case = k;
+  signal(SIGALRM, watchdog);
+  alarm(45);
   g_ops = 50; g_yield = 0;
   nreq = 0; g_outstanding = 0;
   memset(reqs, 0, sizeof(reqs));
@@ -255,6 +275,7 @@ static void run_case(long k, char *line)
     if (reqs[i].ncb > 1) dup++;
     if (reqs[i].ncb == 0) missing++;
   }
+  alarm(0);
   printf("%ld R issued=%d cbs=%d dup=%d missing=%d waitempty=%d:%d late=%d lostwake=%d\n", k, n, cbs, dup, missing, (int)wrc, wrc == ARES_SUCCESS ? out_after : 0, late, lostwake);
 }
 
